@@ -439,12 +439,62 @@ def post_is_perpendicular(ctx, call):
     _judge_all(ctx, "is_perpendicular", call, [l, m], check, "is_perpendicular")
 
 
+def _cocircular_3d(ctx, call, pts, res):
+    """Four points of space lie on a circle iff the rows (|p|^2, x, y, z, 1) have rank <= 3 (a pencil of spheres through them);
+    coplanar points that are not concyclic and points that are not coplanar give rank 4."""
+    if not all(R.is_integral(p.array, 1000) for p in pts):
+        ctx.skip("is_cocircular", "non-lattice operands")
+        return
+
+    def check(pos, es):
+        rows = []
+        for e in es:
+            x, y, z, w = (X.num(v) for v in e.tolist())
+            if w == 0:
+                raise _Skip("point at infinity")
+            x, y, z = x / w, y / w, z / w
+            rows.append([x * x + y * y + z * z, x, y, z, X.F(1)])
+        if X.rank([r[1:] for r in rows]) < 3:
+            raise _Skip("collinear / coincident points (degenerate)")
+        want = X.rank(rows) <= 3
+        got = bool(res[pos[len(pos) - res.ndim:]]) if res.ndim else bool(res)
+        return got == want, f"is_cocircular = {got} for points of space, the exact rank criterion says {want}"
+
+    _judge_all(ctx, "is_cocircular", call, list(pts), check, "is_cocircular")
+
+
+def _cocircular_cp1(ctx, call, pts, res):
+    """Points of the complex projective line lie on a circle (or line) iff their cross ratio is real: exact cross ratio of the given
+    coordinates over Q(i); a band between 1e-12 and 1e-6 (relative imaginary part) is not judged."""
+    def check(pos, es):
+        v = [[X.GQ.of(complex(c)) for c in e.tolist()] for e in es]
+        d = lambda p, q: p[0] * q[1] - p[1] * q[0]  # noqa: E731
+        num, den = d(v[0], v[2]) * d(v[1], v[3]), d(v[0], v[3]) * d(v[1], v[2])
+        if not num or not den:
+            raise _Skip("coincident points (degenerate)")
+        cr = complex(num / den)
+        rel = abs(cr.imag) / max(abs(cr), 1e-300)
+        if 1e-12 < rel < 1e-6:
+            raise _Skip("cross ratio neither clearly real nor clearly non-real")
+        want = rel <= 1e-12
+        got = bool(res[pos[len(pos) - res.ndim:]]) if res.ndim else bool(res)
+        return got == want, f"is_cocircular = {got} for points of CP1 with cross ratio {cr:.6g} (imaginary part {cr.imag:.3g})"
+
+    _judge_all(ctx, "is_cocircular", call, list(pts), check, "is_cocircular")
+
+
 def post_is_cocircular(ctx, call):
     if call.exc is not None or len(call.args) != 4 or call.kwargs:
         return
     pts = call.args
     res = np.asarray(call.result)
-    if not all(R.finite(p.array) for p in pts) or pts[0].shape[-1] != 3:
+    if not all(R.finite(p.array) for p in pts):
+        return
+    if pts[0].shape[-1] == 2:
+        return _cocircular_cp1(ctx, call, pts, res)
+    if pts[0].shape[-1] == 4:
+        return _cocircular_3d(ctx, call, pts, res)
+    if pts[0].shape[-1] != 3:
         return
     if not all(R.is_integral(p.array, 1000) for p in pts):
         ctx.skip("is_cocircular", "non-lattice operands")
@@ -674,8 +724,30 @@ def g_constructions2d(ctx, rng, i):
     ts = rng.choice([0, 1, 2, 3, -1, -2, -3], size=4, replace=False)
     cp = [np.array([c[0] * (1 + t * t) + r * (1 - t * t), c[1] * (1 + t * t) + r * 2 * t, 1 + t * t]) for t in ts]
     _try(g.is_cocircular, *[g.Point(v) for v in cp])
+    cp0 = [v.copy() for v in cp]
     cp[3] = cp[3] + np.array([1, 0, 0])
     _try(g.is_cocircular, *[g.Point(v) for v in cp])
+    # the same circle placed in a plane of space; the fourth point on it, lifted out of the plane, moved inside the plane
+    # an orthogonal integer frame: two axis vectors (possibly scaled and permuted) keep circles circles
+    ax = rng.permutation(3)
+    e1, e2, e3 = np.eye(3, dtype=int)[ax[0]] * gen.pick(rng, [1, -1, 2]), np.eye(3, dtype=int)[ax[1]], np.eye(3, dtype=int)[ax[2]]
+    e2 = e2 * int(abs(e1).max())
+    o3 = gen.coords(rng, (3,), 3, "int")
+    sp = [np.append(o3 * q[2] + q[0] * e1 + q[1] * e2, q[2]) for q in cp0]
+    _try(g.is_cocircular, *[g.Point(q) for q in sp])
+    lifted = sp[3] + np.append(e3 * sp[3][3] * gen.pick(rng, [1, 5, -2]), 0)
+    _try(g.is_cocircular, g.Point(sp[0]), g.Point(sp[1]), g.Point(sp[2]), g.Point(lifted))
+    _try(g.is_cocircular, g.Point(sp[0]), g.Point(sp[1]), g.Point(sp[2]), g.Point(sp[3] + np.append(e1, 0)))
+    # points of the complex projective line: on a circle of the complex plane (floating point coordinates), and off it
+    ang = rng.uniform(0, 2 * np.pi, size=4)
+    zc, rr = complex(*rng.uniform(-2, 2, size=2)), float(rng.uniform(0.5, 3))
+    zs = [zc + rr * np.exp(1j * t) for t in ang]
+    fac = [gen.pick(rng, [1, 1, 0.3 + 1.1j, -2j]) for _ in range(4)]
+    if min(abs(zs[a_] - zs[b_]) for a_ in range(4) for b_ in range(a_)) > 0.2:
+        _try(g.is_cocircular, *[g.Point(np.array([z * f_, f_])) for z, f_ in zip(zs, fac)])
+        _try(g.is_cocircular, *[g.Point(np.array([z * f_, f_])) for z, f_ in zip(zs[:3] + [zs[3] + 0.3], fac)])
+    xs = rng.choice(np.arange(-9, 10), size=4, replace=False) / 4.0
+    _try(g.is_cocircular, *[g.Point(np.array([x * f_, f_])) for x, f_ in zip(xs, fac)])  # four points of the real line
     # collinear / concurrent predicates on lattice configurations
     a, b = gen.nonzero_vec(rng, 3, 4), gen.nonzero_vec(rng, 3, 4)
     _try(g.is_collinear, g.Point(a), g.Point(b), g.Point(2 * a - 3 * b))
